@@ -495,6 +495,15 @@ def method_of_dict_in_helper(ds): return ds.Select(lambda e: (helper_with_dict(e
 def missing_attr_of_instance(ds): return ds.Select(lambda e: CUTS.nothere + e.pt)
 def missing_method_of_instance(ds): return ds.Select(lambda e: CUTS.nothere(e.pt))
 def missing_attr_of_dict(ds): return ds.Select(lambda e: e.f(THR.nothere))
+K9 = 5
+def default_from_local(ds):
+    # the default was computed where the lambda was made - from a local that a global of the same name does not know of
+    K9 = 9
+    return ds.Select(lambda e, *, q=K9, r=K9 + 1: e.f(q, r))
+def default_of_def(ds):
+    K9 = 9
+    def picked(e, *, q=K9): return e.f(q, 10)
+    return ds.Select(picked)
 def attr_of_callable(ds): return ds.Select(lambda e: e.f(SEL.pt, SEL.bank, helper.cut))
 def attr_of_callable_nested(ds): return ds.Select(lambda e: e.jets.Where(lambda j: j.pt > SEL.pt))
 def enum_class_constant(ds): return ds.Select(lambda e: e.f(Tone.DEFAULT_PT, Tone.__name__))
@@ -522,12 +531,23 @@ def object_routes(ctx):
         free = sorted(astx.free_names(lam) & {"THR", "RUNS", "CUTS", "local_map", "CUT5"})
         if free:
             ctx.violation("captured-name-left-in-query", f"{name}: no ValueError and the recorded lambda still names {free}: {astx.unparse(lam)[:160]}", w)
-    for name, want in (("attr_of_callable", [30.0, "AntiKt4", 12.5]), ("enum_class_constant", [30.0, "Tone"])):
+    for name, want in (("attr_of_callable", [30.0, "AntiKt4", 12.5]), ("enum_class_constant", [30.0, "Tone"]), ("default_from_local", [9, 10]), ("default_of_def", [9, 10])):
         ctx.case(f"object-route:{name}", True)
         try:
             s = getattr(m, name)(m.DS())
         except Exception as e:
             ctx.violation(f"object-route:exc:{type(e).__name__}", f"{name}: {type(e).__name__}: {str(e)[:160]}", w)
+            continue
+        if name.startswith("default_"):
+            # the values the callable really has for its defaults, as the recorded lambda computes them
+            ctx.count("object-attribute-captures", 2)
+            try:
+                lam = s.query_ast.args[1]
+                got = eval(compile(ast.fix_missing_locations(ast.Expression(body=astx.clone(lam))), "<recorded>", "eval"), {"__builtins__": {}})(type("E", (), {"f": staticmethod(lambda *a: list(a))})())
+            except Exception as e:
+                got = f"{type(e).__name__}: {e}"
+            if got != want:
+                ctx.violation("default-value-not-the-one-python-computed", f"{name}: the callable's defaults give {want}, the recorded lambda {astx.unparse(lam)[:160]} gives {got}", w)
             continue
         # the history afterwards: none of it reaches the query
         m.SEL.pt, m.SEL.bank, m.helper.cut, m.Tone.DEFAULT_PT = 99.0, "later", -1.0, -2.0
